@@ -18,11 +18,17 @@ ERROR_CLASSES = {"MyError": MyError, "OtherError": OtherError}
 
 # ---------------------------------------------------------------- building
 
-def emit_ops(cb, ops):
+def emit_ops(cb, ops, fresh=None):
+    """fresh: list receiving (prefix, name returned by cb.fresh_var_name) in call order."""
     from pymbolic import var
     for op in ops:
         k = op[0]
-        if k == "assign":
+        if k == "fresh":
+            name = cb.fresh_var_name(op[1])
+            if fresh is not None:
+                fresh.append((op[1], name))
+            cb.assign(var(name), T.to_pymbolic(op[2]))
+        elif k == "assign":
             _, name, sub, rhs, loops = op
             lhs = var(name)
             if sub:
@@ -35,10 +41,10 @@ def emit_ops(cb, ops):
             cb.assign(tuple(var(a) for a in assignees), expr)
         elif k == "if":
             with cb.if_(T.to_pymbolic(op[1])):
-                emit_ops(cb, op[2])
+                emit_ops(cb, op[2], fresh)
             if op[3]:
                 with cb.else_():
-                    emit_ops(cb, op[3])
+                    emit_ops(cb, op[3], fresh)
         elif k == "yield":
             cb.yield_state(T.to_pymbolic(op[1]), op[2], T.to_pymbolic(op[3]), op[4])
         elif k == "fail":
@@ -53,11 +59,11 @@ def emit_ops(cb, ops):
             raise ValueError(op)
 
 
-def build_phase(ph, as_list=True):
+def build_phase(ph, as_list=True, fresh=None):
     """Returns (builder, ExecutionPhase)."""
     from dagrt.language import CodeBuilder, ExecutionPhase
     with CodeBuilder(name=ph["name"]) as cb:
-        emit_ops(cb, ph["body"])
+        emit_ops(cb, ph["body"], fresh)
     if as_list:
         phase = ExecutionPhase(name=ph["name"], next_phase=ph["next"], statements=list(cb.statements))
     else:
